@@ -27,6 +27,11 @@
 \*
 \* Behaviour = build phase (PickA, PickB, PickC per body, PickG) followed by one action per pipeline stage
 \* (Kin, Fd, Vel, Mass, Dyn, Passive, Energy, Finish).  Finish publishes `ev`, the oracle of the replay.
+\* Rand = FALSE enumerates every choice (exhaustive model checking of the small lattices); Rand = TRUE draws every
+\* choice with RandomElement (TLC -simulate over the large lattices: one successor per step, reproducible per seed).
+\* Configurations: SmoothLattice_C07*.cfg (kinematics), _C06*.cfg (inertia / Newton-Euler), _C29*.cfg (passive forces),
+\* _Cov.cfg (coverage of every action), _C0xNeg.cfg (deliberately false claims that TLC must refute).
+\* SmoothFwdInv.tla extends this module with forward / inverse dynamics scenarios (C09).
 EXTENDS Integers, Sequences, FiniteSets, TLC
 
 CONSTANTS MinBodies, MaxBodies,
@@ -41,7 +46,9 @@ CONSTANTS MinBodies, MaxBodies,
           Gravs,       \* gravity vectors
           DisSets,     \* sets of disabled features, subsets of {"spring", "damper", "gravity"}
           TenK, TenRanges, TenDamps, TenArms,
-          Level        \* 1: kinematics only, 2: + mass matrix and dynamics, 3: + passive forces and energy
+          Level,       \* 1: kinematics only, 2: + mass matrix and dynamics, 3: + passive forces and energy
+          Rand         \* FALSE: every choice is enumerated (model checking); TRUE: every choice is drawn at random
+                       \* (simulation of the large lattices: one successor per step instead of thousands)
 
 \* ------------------------------------------------------------------------------------------------
 \* integer vectors and 3x3 matrices (tuples of rows)
@@ -63,31 +70,38 @@ MM(A, B)   == LET c1 == Col(B, 1)  c2 == Col(B, 2)  c3 == Col(B, 3) IN
                 <<Dot(A[3], c1), Dot(A[3], c2), Dot(A[3], c3)>>>>
 Diag(d)    == <<<<d[1], 0, 0>>, <<0, d[2], 0>>, <<0, 0, d[3]>>>>
 Det3(R)    == Dot(R[1], Cross(R[2], R[3]))
-AxisVec(ax) == [j \in 1..3 |-> IF j = IAbs(ax) THEN (IF ax < 0 THEN -1 ELSE 1) ELSE 0]
+AxisVecRaw(ax) == [j \in 1..3 |-> IF j = IAbs(ax) THEN (IF ax < 0 THEN -1 ELSE 1) ELSE 0]
 Cosq(k) == LET r == k % 4 IN IF r = 0 THEN 1 ELSE IF r = 2 THEN -1 ELSE 0
 Sinq(k) == LET r == k % 4 IN IF r = 1 THEN 1 ELSE IF r = 3 THEN -1 ELSE 0
 \* rotation of x by k quarter turns about the unit vector z (Rodrigues; exact for quarter turns)
 RotV(z, k, x) == VAdd(x, VAdd(VScl(Sinq(k), Cross(z, x)), VScl(1 - Cosq(k), Cross(z, Cross(z, x)))))
 RotMat(z, k)  == Tr(<<RotV(z, k, <<1, 0, 0>>), RotV(z, k, <<0, 1, 0>>), RotV(z, k, <<0, 0, 1>>)>>)
+\* constant tables (TLC evaluates constant definitions once): signed axes and their quarter-turn rotations
+SAxes   == {-3, -2, -1, 1, 2, 3}
+AxisTab == [ax \in SAxes |-> AxisVecRaw(ax)]
+RotTab  == [ax \in SAxes |-> [k \in 0..3 |-> RotMat(AxisVecRaw(ax), k)]]
+AxisVec(ax) == AxisTab[ax]
+MulRot(R, ax, k) == IF k % 4 = 0 THEN R ELSE MM(R, RotTab[ax][k % 4])       \* R * (k quarter turns about axis ax)
 RECURSIVE SumN(_, _)
 SumN(f, k)  == IF k = 0 THEN 0 ELSE f[k] + SumN(f, k - 1)
 RECURSIVE VSumN(_, _)
 VSumN(f, k) == IF k = 0 THEN Z3 ELSE VAdd(f[k], VSumN(f, k - 1))
 
 \* ------------------------------------------------------------------------------------------------
-VARIABLES stage,  \* "A" | "B" | "C" | "G" | "kin" | "fd" | "vel" | "mass" | "dyn" | "pas" | "en" | "fin" | "done"
+VARIABLES stage,  \* "A" | "B" | "C" | "kin" | "fd" | "vel" | "mass" | "dyn" | "pas" | "en" | "fin" | "done"
           B,      \* sequence of bodies (records), depth-first order: B[b].par < b
           part,   \* the body being built
           glob,   \* [g, dis, tk, trange, tdamp, tarm]
+          tree,   \* [anc: per body the set of the body and its ancestors, dofs: bodies that carry a dof, in order]
           kin,    \* per body: frames
           fd,     \* per body with a joint: frames of the whole tree at q + e_b and q - e_b
-          vel,    \* per body: angular velocity, velocity of origin / com / site (J v), and the recursive ones
+          vel,    \* per body: angular velocity, velocity of origin / com / site (J v), axis rate and anchor velocity
           mass,   \* [M, Mb] over bodies (rows/columns of jointless bodies are zero)
           dyn,    \* [bias, biasR, tauK, tauR, fs, kin2, biasP, biasM]
           pas,    \* passive forces
           en,     \* energies
           ev      \* published result
-vars == <<stage, B, part, glob, kin, fd, vel, mass, dyn, pas, en, ev>>
+vars == <<stage, B, part, glob, tree, kin, fd, vel, mass, dyn, pas, en, ev>>
 
 n == Len(B)
 HasJ(j) == B[j].jt # "none"
@@ -95,8 +109,9 @@ IsS(j)  == B[j].jt = "slide"
 IsH(j)  == B[j].jt = "hinge"
 RECURSIVE AncOf(_, _)
 AncOf(bs, b) == IF b = 0 THEN {} ELSE {b} \cup AncOf(bs, bs[b].par)
-Anc(b) == AncOf(B, b)                                  \* b and its ancestors (world excluded)
-Dofs   == SelectSeq([i \in 1..n |-> i], HasJ)          \* bodies that carry a dof, in dof order
+Anc(b) == tree.anc[b]                                  \* b and its ancestors (world excluded)
+Dofs   == tree.dofs                                    \* bodies that carry a dof, in dof order
+nv     == Len(tree.dofs)
 QOf    == [b \in 1..n |-> B[b].q]
 VOf    == [b \in 1..n |-> B[b].v]
 AOf    == [b \in 1..n |-> B[b].a]
@@ -108,82 +123,90 @@ Grav   == IF Dis("gravity") THEN Z3 ELSE glob.g
 \* ------------------------------------------------------------------------------------------------
 \* build phase
 \* ------------------------------------------------------------------------------------------------
-NoneBody(r) == r.jt = "none"
 \* parents keeping depth-first order: the previous body or one of its ancestors, or the world
-Parents == IF n = 0 THEN {0} ELSE {0} \cup Anc(n)
+Parents == IF n = 0 THEN {0} ELSE {0} \cup AncOf(B, n)
 
-Init == /\ stage = "A" /\ B = << >> /\ part = << >> /\ glob = << >> /\ kin = << >> /\ fd = << >>
+Init == /\ stage = "A" /\ B = << >> /\ part = << >> /\ glob = << >> /\ tree = << >> /\ kin = << >> /\ fd = << >>
         /\ vel = << >> /\ mass = << >> /\ dyn = << >> /\ pas = << >> /\ en = << >> /\ ev = [op |-> "init"]
 
+\* choices that do not apply are normalised (a jointless body has no joint parameters); when enumerating, the
+\* duplicates are pruned by the guard
+Pick(S) == IF Rand THEN {RandomElement(S)} ELSE S
 PickA(par, jt, ax, pos, rot, janc, spos, srot) ==
-  /\ stage = "A" /\ n < MaxBodies
-  /\ (jt = "none" => (ax = 1 /\ janc = Z3))
-  /\ part' = [par |-> par, jt |-> jt, ax |-> ax, pos |-> pos, rot |-> rot, janc |-> janc, spos |-> spos, srot |-> srot]
+  /\ n < MaxBodies
+  /\ (~Rand /\ jt = "none") => (ax = 1 /\ janc = Z3)
+  /\ part' = [par |-> par, jt |-> jt, ax |-> IF jt = "none" THEN 1 ELSE ax, pos |-> pos, rot |-> rot,
+              janc |-> IF jt = "none" THEN Z3 ELSE janc, spos |-> spos, srot |-> srot]
   /\ stage' = "B"
-  /\ UNCHANGED <<B, glob, kin, fd, vel, mass, dyn, pas, en, ev>>
+  /\ UNCHANGED <<B, glob, tree, kin, fd, vel, mass, dyn, pas, en, ev>>
 
 \* a fixed tendon spans joints of one type only (its length then has one unit)
 TenTypeOK(jt, tc) == tc # 0 => \A j \in 1..n : B[j].tc # 0 => B[j].jt = jt
 PickB(m, inr, ipos, arm, k, qref, damp, gc, tc) ==
-  /\ stage = "B"
-  /\ (part.jt = "none" => (arm = 0 /\ k = 0 /\ qref = 0 /\ damp = 0 /\ tc = 0))
-  /\ TenTypeOK(part.jt, tc)
-  /\ part' = part @@ [mass |-> m, inr |-> inr, ipos |-> ipos, arm |-> arm, k |-> k, qref |-> qref, damp |-> damp,
-                      gc |-> gc, tc |-> tc]
+  LET nj == part.jt = "none"
+      tcOK == ~nj /\ TenTypeOK(part.jt, tc) IN
+  /\ (~Rand /\ nj) => (arm = 0 /\ k = 0 /\ qref = 0 /\ damp = 0 /\ tc = 0)
+  /\ ~Rand => TenTypeOK(part.jt, tc)
+  /\ part' = part @@ [mass |-> m, inr |-> inr, ipos |-> ipos, arm |-> IF nj THEN 0 ELSE arm, k |-> IF nj THEN 0 ELSE k,
+                      qref |-> IF nj THEN 0 ELSE qref, damp |-> IF nj THEN 0 ELSE damp,
+                      gc |-> gc, tc |-> IF tcOK THEN tc ELSE 0]
   /\ stage' = "C"
-  /\ UNCHANGED <<B, glob, kin, fd, vel, mass, dyn, pas, en, ev>>
+  /\ UNCHANGED <<B, glob, tree, kin, fd, vel, mass, dyn, pas, en, ev>>
 
 PickC(q, v, a) ==
-  /\ stage = "C"
-  /\ (part.jt = "none" => (q = 0 /\ v = 0 /\ a = 0))
-  /\ B' = Append(B, part @@ [q |-> q, v |-> v, a |-> a])
+  LET nj == part.jt = "none" IN
+  /\ (~Rand /\ nj) => (q = 0 /\ v = 0 /\ a = 0)
+  /\ B' = Append(B, part @@ [q |-> IF nj THEN 0 ELSE q, v |-> IF nj THEN 0 ELSE v, a |-> IF nj THEN 0 ELSE a])
   /\ part' = << >>
   /\ stage' = "A"
-  /\ UNCHANGED <<glob, kin, fd, vel, mass, dyn, pas, en, ev>>
+  /\ UNCHANGED <<glob, tree, kin, fd, vel, mass, dyn, pas, en, ev>>
 
 HasTendon == \E j \in 1..n : B[j].tc # 0
 PickG(g, dis, tk, tr, td, ta) ==
-  /\ stage = "A" /\ n >= MinBodies
-  /\ (~HasTendon => (tk = 0 /\ td = 0 /\ ta = 0 /\ tr = <<0, 0>>))
+  LET ht == HasTendon IN
+  /\ n >= MinBodies
+  /\ (~Rand /\ ~ht) => (tk = 0 /\ td = 0 /\ ta = 0 /\ tr = <<0, 0>>)
   /\ tr[1] <= tr[2]
-  /\ glob' = [g |-> g, dis |-> dis, tk |-> tk, trange |-> tr, tdamp |-> td, tarm |-> ta]
+  /\ glob' = [g |-> g, dis |-> dis, tk |-> IF ht THEN tk ELSE 0, trange |-> IF ht THEN tr ELSE <<0, 0>>,
+              tdamp |-> IF ht THEN td ELSE 0, tarm |-> IF ht THEN ta ELSE 0]
+  /\ tree' = [anc |-> [b \in 1..n |-> AncOf(B, b)], dofs |-> SelectSeq([i \in 1..n |-> i], HasJ)]
   /\ stage' = "kin"
   /\ UNCHANGED <<B, part, kin, fd, vel, mass, dyn, pas, en, ev>>
 
 \* ------------------------------------------------------------------------------------------------
 \* Kin : frames.  hinge angle q = number of quarter turns, slide displacement q = integer
 \* ------------------------------------------------------------------------------------------------
-RECURSIVE KinSeq(_, _, _)
-KinSeq(bs, q, k) ==
-  IF k = 0 THEN << >>
-  ELSE LET prev == KinSeq(bs, q, k - 1)
-           b    == bs[k]
-           pp   == IF b.par = 0 THEN Z3 ELSE prev[b.par].p
-           pR   == IF b.par = 0 THEN I3 ELSE prev[b.par].R
-           p0   == VAdd(pp, MV(pR, b.pos))                                  \* frame before the joint acts
-           R0   == MM(pR, RotMat(AxisVec(b.rot[1]), b.rot[2]))
-           zw   == MV(R0, AxisVec(b.ax))                                    \* joint axis, world
-           anc  == VAdd(p0, MV(R0, b.janc))                                 \* joint anchor, world
-           R    == IF b.jt = "hinge" THEN MM(R0, RotMat(AxisVec(b.ax), q[k])) ELSE R0
-           p    == IF b.jt = "slide" THEN VAdd(p0, VScl(q[k], zw))
-                   ELSE IF b.jt = "hinge" THEN VSub(anc, MV(R, b.janc)) ELSE p0
-       IN Append(prev, [p |-> p, R |-> R, zw |-> zw, anc |-> anc,
-                        c  |-> VAdd(p, MV(R, b.ipos)),                       \* centre of mass (xipos)
-                        sp |-> VAdd(p, MV(R, b.spos)),                       \* site position
-                        sR |-> MM(R, RotMat(AxisVec(b.srot[1]), b.srot[2]))])
+BodyKin(b, qk, prev) ==
+  LET pp   == IF b.par = 0 THEN Z3 ELSE prev[b.par].p
+      pR   == IF b.par = 0 THEN I3 ELSE prev[b.par].R
+      p0   == VAdd(pp, MV(pR, b.pos))                                  \* frame before the joint acts
+      R0   == MulRot(pR, b.rot[1], b.rot[2])
+      zw   == MV(R0, AxisVec(b.ax))                                    \* joint axis, world
+      anc  == VAdd(p0, MV(R0, b.janc))                                 \* joint anchor, world
+      R    == IF b.jt = "hinge" THEN MulRot(R0, b.ax, qk) ELSE R0
+      p    == IF b.jt = "slide" THEN VAdd(p0, VScl(qk, zw))
+              ELSE IF b.jt = "hinge" THEN VSub(anc, MV(R, b.janc)) ELSE p0
+  IN [p |-> p, R |-> R, zw |-> zw, anc |-> anc,
+      c  |-> VAdd(p, MV(R, b.ipos)),                                   \* centre of mass (xipos)
+      sp |-> VAdd(p, MV(R, b.spos)),                                   \* site position
+      sR |-> MulRot(R, b.srot[1], b.srot[2])]
+\* frames of bodies k.. given the frames `acc` of the bodies before k
+RECURSIVE KinAcc(_, _, _, _)
+KinAcc(bs, q, k, acc) == IF k > Len(bs) THEN acc ELSE KinAcc(bs, q, k + 1, Append(acc, BodyKin(bs[k], q[k], acc)))
+KinSeq(bs, q) == KinAcc(bs, q, 1, << >>)
 Kin ==
-  /\ stage = "kin"
-  /\ kin' = KinSeq(B, QOf, n)
+  /\ kin' = KinSeq(B, QOf)
   /\ stage' = "fd"
-  /\ UNCHANGED <<B, part, glob, fd, vel, mass, dyn, pas, en, ev>>
+  /\ UNCHANGED <<B, part, glob, tree, fd, vel, mass, dyn, pas, en, ev>>
 
-\* Fd : the same frames after moving one coordinate one lattice step forth / back (mj_integratePos)
+\* Fd : the same frames after moving one coordinate one lattice step forth / back (mj_integratePos);
+\*      bodies before b in depth-first order are not descendants of b and keep their frames
 Fd ==
-  /\ stage = "fd"
-  /\ fd' = [b \in 1..n |-> IF HasJ(b) THEN [p |-> KinSeq(B, Bump(QOf, b, 1), n), m |-> KinSeq(B, Bump(QOf, b, -1), n)]
+  /\ fd' = [b \in 1..n |-> IF HasJ(b) THEN [p |-> KinAcc(B, Bump(QOf, b, 1), b, SubSeq(kin, 1, b - 1)),
+                                             m |-> KinAcc(B, Bump(QOf, b, -1), b, SubSeq(kin, 1, b - 1))]
                            ELSE << >>]
   /\ stage' = IF Level >= 2 THEN "vel" ELSE "fin"
-  /\ UNCHANGED <<B, part, glob, kin, vel, mass, dyn, pas, en, ev>>
+  /\ UNCHANGED <<B, part, glob, tree, kin, vel, mass, dyn, pas, en, ev>>
 
 \* ------------------------------------------------------------------------------------------------
 \* Jacobians by definition: column of dof j for a point x fixed in body b
@@ -193,98 +216,100 @@ JRcol(j)    == IF IsH(j) THEN kin[j].zw ELSE Z3
 JP(b, x, j) == IF j \in Anc(b) THEN JPcol(j, x) ELSE Z3
 JR(b, j)    == IF j \in Anc(b) THEN JRcol(j) ELSE Z3
 \* velocities = J v
-Omega(v, b)   == IF b = 0 THEN Z3 ELSE VSumN([j \in 1..n |-> VScl(v[j], JR(b, j))], n)
-PVel(v, b, x) == IF b = 0 THEN Z3 ELSE VSumN([j \in 1..n |-> VScl(v[j], JP(b, x, j))], n)
-\* time derivative of the Jacobian columns: the axis turns with the parent, the anchor moves with the parent
-ZDot(v, j)    == Cross(Omega(v, B[j].par), kin[j].zw)
-AncVel(v, j)  == PVel(v, B[j].par, kin[j].anc)
-JdPcol(v, b, x, j) == IF IsS(j) THEN ZDot(v, j)
-                      ELSE IF IsH(j) THEN VAdd(Cross(ZDot(v, j), VSub(x, kin[j].anc)),
-                                               Cross(kin[j].zw, VSub(PVel(v, b, x), AncVel(v, j))))
-                      ELSE Z3
-JdRcol(v, j)  == IF IsH(j) THEN ZDot(v, j) ELSE Z3
-JdP(v, b, x, j) == IF j \in Anc(b) THEN JdPcol(v, b, x, j) ELSE Z3
-JdR(v, b, j)    == IF j \in Anc(b) THEN JdRcol(v, j) ELSE Z3
-PAcc(v, a, b, x) == VSumN([j \in 1..n |-> VAdd(VScl(v[j], JdP(v, b, x, j)), VScl(a[j], JP(b, x, j)))], n)
-AAcc(v, a, b)    == VSumN([j \in 1..n |-> VAdd(VScl(v[j], JdR(v, b, j)), VScl(a[j], JR(b, j)))], n)
+Omega(v, b)   == IF b = 0 THEN Z3 ELSE VSumN([j \in 1..n |-> IF v[j] = 0 THEN Z3 ELSE VScl(v[j], JR(b, j))], n)
+PVel(v, b, x) == IF b = 0 THEN Z3 ELSE VSumN([j \in 1..n |-> IF v[j] = 0 THEN Z3 ELSE VScl(v[j], JP(b, x, j))], n)
+
+Vel ==
+  /\ vel' = [b \in 1..n |-> [w  |-> Omega(VOf, b),
+                             vo |-> PVel(VOf, b, kin[b].p),
+                             vc |-> PVel(VOf, b, kin[b].c),
+                             vs |-> PVel(VOf, b, kin[b].sp),
+                             \* the axis of joint b turns with the parent body, its anchor moves with the parent body
+                             zd |-> Cross(Omega(VOf, B[b].par), kin[b].zw),
+                             va |-> PVel(VOf, B[b].par, kin[b].anc)]]
+  /\ stage' = "mass"
+  /\ UNCHANGED <<B, part, glob, tree, kin, fd, mass, dyn, pas, en, ev>>
+
+\* time derivative of the Jacobian columns at the current velocity; vx = velocity of the point x of body b
+JdPcol(x, vx, j) == IF IsS(j) THEN vel[j].zd
+                    ELSE IF IsH(j) THEN VAdd(Cross(vel[j].zd, VSub(x, kin[j].anc)), Cross(kin[j].zw, VSub(vx, vel[j].va)))
+                    ELSE Z3
+JdRcol(j)        == IF IsH(j) THEN vel[j].zd ELSE Z3
+JdP(b, x, vx, j) == IF j \in Anc(b) THEN JdPcol(x, vx, j) ELSE Z3
+JdR(b, j)        == IF j \in Anc(b) THEN JdRcol(j) ELSE Z3
 Iw(b) == MM(MM(kin[b].R, Diag(B[b].inr)), Tr(kin[b].R))          \* inertia about the centre of mass, world axes
 
 \* ------------------------------------------------------------------------------------------------
 \* RecNE : textbook recursive Newton-Euler in world coordinates (independent of the Jacobians)
 \* ------------------------------------------------------------------------------------------------
-RECURSIVE FwdSeq(_, _, _)
-FwdSeq(v, a, k) ==
-  IF k = 0 THEN << >>
-  ELSE LET prev == FwdSeq(v, a, k - 1)
-           b   == B[k]
-           par == b.par
-           pp  == IF par = 0 THEN Z3 ELSE kin[par].p
-           wp  == IF par = 0 THEN Z3 ELSE prev[par].w
-           alp == IF par = 0 THEN Z3 ELSE prev[par].al
-           vop == IF par = 0 THEN Z3 ELSE prev[par].vo
-           aop == IF par = 0 THEN Z3 ELSE prev[par].ao
-           \* velocity / acceleration of the point of the parent body that is momentarily at x
-           VP(x) == VAdd(vop, Cross(wp, VSub(x, pp)))
-           AP(x) == VAdd(aop, VAdd(Cross(alp, VSub(x, pp)), Cross(wp, Cross(wp, VSub(x, pp)))))
-           zw  == kin[k].zw
-           p   == kin[k].p
-           w   == IF b.jt = "hinge" THEN VAdd(wp, VScl(v[k], zw)) ELSE wp
-           al  == IF b.jt = "hinge" THEN VAdd(alp, VAdd(VScl(a[k], zw), VScl(v[k], Cross(wp, zw)))) ELSE alp
-           rA  == VSub(p, kin[k].anc)
-           vo  == IF b.jt = "slide" THEN VAdd(VP(p), VScl(v[k], zw))
-                  ELSE IF b.jt = "hinge" THEN VAdd(VP(kin[k].anc), Cross(w, rA)) ELSE VP(p)
-           ao  == IF b.jt = "slide" THEN VAdd(AP(p), VAdd(VScl(a[k], zw), VScl(2 * v[k], Cross(wp, zw))))
-                  ELSE IF b.jt = "hinge" THEN VAdd(AP(kin[k].anc), VAdd(Cross(al, rA), Cross(w, Cross(w, rA))))
-                  ELSE AP(p)
-           rc  == VSub(kin[k].c, p)
-           ac  == VAdd(ao, VAdd(Cross(al, rc), Cross(w, Cross(w, rc))))
-           F   == VScl(b.mass, VSub(ac, Grav))                                \* net force on the body
-           Nc  == VAdd(MV(Iw(k), al), Cross(w, MV(Iw(k), w)))                 \* net torque about its centre of mass
-       IN Append(prev, [w |-> w, al |-> al, vo |-> vo, ao |-> ao, vc |-> VAdd(vo, Cross(w, rc)),
-                        F |-> F, NO |-> VAdd(Nc, Cross(kin[k].c, F))])       \* NO: torque about the world origin
+BodyNE(k, v, a, prev) ==
+  LET b   == B[k]
+      par == b.par
+      pp  == IF par = 0 THEN Z3 ELSE kin[par].p
+      wp  == IF par = 0 THEN Z3 ELSE prev[par].w
+      alp == IF par = 0 THEN Z3 ELSE prev[par].al
+      vop == IF par = 0 THEN Z3 ELSE prev[par].vo
+      aop == IF par = 0 THEN Z3 ELSE prev[par].ao
+      \* velocity / acceleration of the point of the parent body that is momentarily at x
+      VP(x) == VAdd(vop, Cross(wp, VSub(x, pp)))
+      AP(x) == VAdd(aop, VAdd(Cross(alp, VSub(x, pp)), Cross(wp, Cross(wp, VSub(x, pp)))))
+      zw  == kin[k].zw
+      p   == kin[k].p
+      w   == IF b.jt = "hinge" THEN VAdd(wp, VScl(v[k], zw)) ELSE wp
+      al  == IF b.jt = "hinge" THEN VAdd(alp, VAdd(VScl(a[k], zw), VScl(v[k], Cross(wp, zw)))) ELSE alp
+      rA  == VSub(p, kin[k].anc)
+      vo  == IF b.jt = "slide" THEN VAdd(VP(p), VScl(v[k], zw))
+             ELSE IF b.jt = "hinge" THEN VAdd(VP(kin[k].anc), Cross(w, rA)) ELSE VP(p)
+      ao  == IF b.jt = "slide" THEN VAdd(AP(p), VAdd(VScl(a[k], zw), VScl(2 * v[k], Cross(wp, zw))))
+             ELSE IF b.jt = "hinge" THEN VAdd(AP(kin[k].anc), VAdd(Cross(al, rA), Cross(w, Cross(w, rA))))
+             ELSE AP(p)
+      rc  == VSub(kin[k].c, p)
+      ac  == VAdd(ao, VAdd(Cross(al, rc), Cross(w, Cross(w, rc))))
+      F   == VScl(b.mass, VSub(ac, Grav))                                \* net force on the body
+      Iwk == Iw(k)
+      Nc  == VAdd(MV(Iwk, al), Cross(w, MV(Iwk, w)))                     \* net torque about its centre of mass
+  IN [w |-> w, al |-> al, vo |-> vo, ao |-> ao, vc |-> VAdd(vo, Cross(w, rc)),
+      F |-> F, NO |-> VAdd(Nc, Cross(kin[k].c, F))]                      \* NO: torque about the world origin
+RECURSIVE FwdAcc(_, _, _, _)
+FwdAcc(v, a, k, acc) == IF k > n THEN acc ELSE FwdAcc(v, a, k + 1, Append(acc, BodyNE(k, v, a, acc)))
+FwdSeq(v, a) == FwdAcc(v, a, 1, << >>)
 RECURSIVE SubF(_, _)
 SubF(fs, b)  == VAdd(fs[b].F, VSumN([c \in 1..n |-> IF B[c].par = b THEN SubF(fs, c) ELSE Z3], n))
 RECURSIVE SubNO(_, _)
 SubNO(fs, b) == VAdd(fs[b].NO, VSumN([c \in 1..n |-> IF B[c].par = b THEN SubNO(fs, c) ELSE Z3], n))
-RecTau(v, a) == LET fs == FwdSeq(v, a, n) IN
+TauOf(fs) ==
   [b \in 1..n |-> IF IsS(b) THEN Dot(kin[b].zw, SubF(fs, b))
                   ELSE IF IsH(b) THEN Dot(kin[b].zw, VSub(SubNO(fs, b), Cross(kin[b].anc, SubF(fs, b))))
                   ELSE 0]
+RecTau(v, a) == TauOf(FwdSeq(v, a))
 
-\* Kane : projected Newton-Euler through the Jacobians
-KaneTau(v, a) ==
+\* Kane : projected Newton-Euler through the Jacobians, at the current velocity and acceleration a
+KaneBody(a, b) ==
+  LET c  == kin[b].c
+      ac == VSumN([j \in 1..n |-> VAdd(VScl(B[j].v, JdP(b, c, vel[b].vc, j)), VScl(a[j], JP(b, c, j)))], n)
+      al == VSumN([j \in 1..n |-> VAdd(VScl(B[j].v, JdR(b, j)), VScl(a[j], JR(b, j)))], n)
+      Ib == Iw(b)
+  IN [F |-> VScl(B[b].mass, VSub(ac, Grav)), N |-> VAdd(MV(Ib, al), Cross(vel[b].w, MV(Ib, vel[b].w)))]
+KaneTau(a) ==
+  LET kb == [b \in 1..n |-> KaneBody(a, b)] IN
   [i \in 1..n |-> IF ~HasJ(i) THEN 0 ELSE
-     SumN([b \in 1..n |->
-             IF i \notin Anc(b) THEN 0 ELSE
-             LET w  == Omega(v, b)
-                 al == AAcc(v, a, b)
-             IN B[b].mass * Dot(JP(b, kin[b].c, i), VSub(PAcc(v, a, b, kin[b].c), Grav))
-                + Dot(JR(b, i), VAdd(MV(Iw(b), al), Cross(w, MV(Iw(b), w))))], n)]
-
-Vel ==
-  /\ stage = "vel"
-  /\ vel' = [b \in 1..n |-> [w  |-> Omega(VOf, b),
-                             vo |-> PVel(VOf, b, kin[b].p),
-                             vc |-> PVel(VOf, b, kin[b].c),
-                             vs |-> PVel(VOf, b, kin[b].sp)]]
-  /\ stage' = "mass"
-  /\ UNCHANGED <<B, part, glob, kin, fd, mass, dyn, pas, en, ev>>
+     SumN([b \in 1..n |-> IF i \notin Anc(b) THEN 0
+                          ELSE Dot(JPcol(i, kin[b].c), kb[b].F) + Dot(JRcol(i), kb[b].N)], n)]
 
 \* ------------------------------------------------------------------------------------------------
 \* Mass : M by definition
 \* ------------------------------------------------------------------------------------------------
 MbEntry(i, j) == SumN([b \in 1..n |-> IF i \in Anc(b) /\ j \in Anc(b)
-                                       THEN B[b].mass * Dot(JP(b, kin[b].c, i), JP(b, kin[b].c, j))
-                                            + Dot(JR(b, i), MV(Iw(b), JR(b, j)))
+                                       THEN B[b].mass * Dot(JPcol(i, kin[b].c), JPcol(j, kin[b].c))
+                                            + Dot(JRcol(i), MV(Iw(b), JRcol(j)))
                                        ELSE 0], n)
 Mass ==
-  /\ stage = "mass"
   /\ LET Mb == [i \in 1..n |-> [j \in 1..n |-> IF HasJ(i) /\ HasJ(j) THEN MbEntry(i, j) ELSE 0]]
      IN mass' = [Mb |-> Mb,
                  M  |-> [i \in 1..n |-> [j \in 1..n |-> Mb[i][j] + (IF i = j THEN B[i].arm ELSE 0)
                                                          + glob.tarm * B[i].tc * B[j].tc]]]
   /\ stage' = "dyn"
-  /\ UNCHANGED <<B, part, glob, kin, fd, vel, dyn, pas, en, ev>>
+  /\ UNCHANGED <<B, part, glob, tree, kin, fd, vel, dyn, pas, en, ev>>
 
 MatVecN(M, x) == [i \in 1..n |-> SumN([j \in 1..n |-> M[i][j] * x[j]], n)]
 VecAddN(x, y) == [i \in 1..n |-> x[i] + y[i]]
@@ -297,17 +322,17 @@ Kin2 == SumN([b \in 1..n |-> B[b].mass * Dot(vel[b].vc, vel[b].vc) + Dot(vel[b].
 \* Dyn : bias force (acceleration zero), Newton-Euler with the chosen acceleration, both derivations, and the bias
 \*       one velocity step forth / back per dof (its central difference is the exact velocity derivative)
 Dyn ==
-  /\ stage = "dyn"
-  /\ dyn' = [bias  |-> KaneTau(VOf, ZeroN),
+  /\ LET fs == FwdSeq(VOf, AOf) IN
+     dyn' = [bias  |-> KaneTau(ZeroN),
              biasR |-> RecTau(VOf, ZeroN),
-             tauK  |-> KaneTau(VOf, AOf),
-             tauR  |-> RecTau(VOf, AOf),
-             fs    |-> FwdSeq(VOf, AOf, n),
+             tauK  |-> KaneTau(AOf),
+             tauR  |-> TauOf(fs),
+             fs    |-> fs,
              kin2  |-> Kin2,
              biasP |-> [b \in 1..n |-> IF HasJ(b) THEN RecTau(Bump(VOf, b, 1), ZeroN) ELSE << >>],
              biasM |-> [b \in 1..n |-> IF HasJ(b) THEN RecTau(Bump(VOf, b, -1), ZeroN) ELSE << >>]]
   /\ stage' = IF Level >= 3 THEN "pas" ELSE "fin"
-  /\ UNCHANGED <<B, part, glob, kin, fd, vel, mass, pas, en, ev>>
+  /\ UNCHANGED <<B, part, glob, tree, kin, fd, vel, mass, pas, en, ev>>
 
 \* ------------------------------------------------------------------------------------------------
 \* Passive forces.  Numbers with a unit are pairs: value = A + Bu * u, u = pi/2 (one quarter turn) on hinge dofs
@@ -326,15 +351,15 @@ DamperRaw(v, i)  == IF DamperOn /\ HasJ(i) THEN 0 - B[i].damp * v[i] - B[i].tc *
 GravOf(b, i)     == B[b].mass * Dot(JP(b, kin[b].c, i), glob.g)        \* generalized gravity force of body b on dof i
 GravcompRaw(i)   == IF GravcompOn /\ HasJ(i) THEN 0 - SumN([b \in 1..n |-> B[b].gc * GravOf(b, i)], n) ELSE 0
 Passive ==
-  /\ stage = "pas"
-  /\ pas' = [spring   |-> [i \in 1..n |-> SpringRaw(QOf, i)],            \* unit u on hinge dofs
-             damper   |-> [i \in 1..n |-> DamperRaw(VOf, i)],
-             gravcomp |-> [i \in 1..n |-> GravcompRaw(i)],
-             totA     |-> [i \in 1..n |-> (IF IsH(i) THEN 0 ELSE SpringRaw(QOf, i)) + DamperRaw(VOf, i) + GravcompRaw(i)],
-             totB     |-> [i \in 1..n |-> IF IsH(i) THEN SpringRaw(QOf, i) ELSE 0],
-             tlen     |-> TenLen(QOf), tvel |-> SumN([j \in 1..n |-> B[j].tc * B[j].v], n)]
+  /\ LET sp == [i \in 1..n |-> SpringRaw(QOf, i)]
+         da == [i \in 1..n |-> DamperRaw(VOf, i)]
+         gc == [i \in 1..n |-> GravcompRaw(i)]
+     IN pas' = [spring |-> sp, damper |-> da, gravcomp |-> gc,              \* spring: unit u on hinge dofs
+                totA   |-> [i \in 1..n |-> (IF IsH(i) THEN 0 ELSE sp[i]) + da[i] + gc[i]],
+                totB   |-> [i \in 1..n |-> IF IsH(i) THEN sp[i] ELSE 0],
+                tlen   |-> TenLen(QOf), tvel |-> SumN([j \in 1..n |-> B[j].tc * B[j].v], n)]
   /\ stage' = "en"
-  /\ UNCHANGED <<B, part, glob, kin, fd, vel, mass, dyn, en, ev>>
+  /\ UNCHANGED <<B, part, glob, tree, kin, fd, vel, mass, dyn, en, ev>>
 
 \* ------------------------------------------------------------------------------------------------
 \* Energy.  potential = (A2 + B2 * u^2) / 2, kinetic = K2 / 2
@@ -347,35 +372,34 @@ PotB2(q)    == IF SpringOn THEN SumN([j \in 1..n |-> IF IsH(j) THEN B[j].k * (q[
                                 + (IF TenIsHinge THEN glob.tk * TenDefl(q) * TenDefl(q) ELSE 0)
                ELSE 0
 Energy ==
-  /\ stage = "en"
   /\ en' = [potA2 |-> PotA2(kin, QOf), potB2 |-> PotB2(QOf),
             potA2p |-> [b \in 1..n |-> IF HasJ(b) THEN PotA2(fd[b].p, Bump(QOf, b, 1)) ELSE 0],
             potA2m |-> [b \in 1..n |-> IF HasJ(b) THEN PotA2(fd[b].m, Bump(QOf, b, -1)) ELSE 0],
             potB2p |-> [b \in 1..n |-> IF HasJ(b) THEN PotB2(Bump(QOf, b, 1)) ELSE 0],
             potB2m |-> [b \in 1..n |-> IF HasJ(b) THEN PotB2(Bump(QOf, b, -1)) ELSE 0]]
   /\ stage' = "fin"
-  /\ UNCHANGED <<B, part, glob, kin, fd, vel, mass, dyn, pas, ev>>
+  /\ UNCHANGED <<B, part, glob, tree, kin, fd, vel, mass, dyn, pas, ev>>
 
 \* ------------------------------------------------------------------------------------------------
-\* Finish : publish, indexed by dof (d = 1..nv), exactly what the implementation must return
+\* Finish : publish, indexed by dof (d = 1..nv), exactly what the implementation must return.
+\* Jacobians are published as sequences of COLUMNS (one 3-vector per dof).
 \* ------------------------------------------------------------------------------------------------
-nv == Len(Dofs)
 ByDof(f) == [d \in 1..nv |-> f[Dofs[d]]]
 MatByDof(M) == [d \in 1..nv |-> [e \in 1..nv |-> M[Dofs[d]][Dofs[e]]]]
-\* 3 x nv Jacobian (rows x, y, z) of a point on a body
-JacP(b, x) == [r \in 1..3 |-> [d \in 1..nv |-> JP(b, x, Dofs[d])[r]]]
-JacR(b)    == [r \in 1..3 |-> [d \in 1..nv |-> JR(b, Dofs[d])[r]]]
-JacDP(b, x) == [r \in 1..3 |-> [d \in 1..nv |-> JdP(VOf, b, x, Dofs[d])[r]]]
-JacDR(b)    == [r \in 1..3 |-> [d \in 1..nv |-> JdR(VOf, b, Dofs[d])[r]]]
+JacP(b, x)  == [d \in 1..nv |-> JP(b, x, Dofs[d])]
+JacR(b)     == [d \in 1..nv |-> JR(b, Dofs[d])]
+JacDP(b, x, vx) == [d \in 1..nv |-> JdP(b, x, vx, Dofs[d])]
+JacDR(b)    == [d \in 1..nv |-> JdR(b, Dofs[d])]
 \* subtree quantities: mass and mass-weighted sums (the centre of mass is the quotient)
 Sub(b) == {c \in 1..n : b \in Anc(c)}
-SubMass(b) == SumN([c \in 1..n |-> IF c \in Sub(b) THEN B[c].mass ELSE 0], n)
-SubMom(b)  == VSumN([c \in 1..n |-> IF c \in Sub(b) THEN VScl(B[c].mass, kin[c].c) ELSE Z3], n)
-SubJac(b)  == [r \in 1..3 |-> [d \in 1..nv |->
-                 SumN([c \in 1..n |-> IF c \in Sub(b) THEN B[c].mass * JP(c, kin[c].c, Dofs[d])[r] ELSE 0], n)]]
+SubMass(b) == SumN([c \in 1..n |-> IF b \in Anc(c) THEN B[c].mass ELSE 0], n)
+SubMom(b)  == VSumN([c \in 1..n |-> IF b \in Anc(c) THEN VScl(B[c].mass, kin[c].c) ELSE Z3], n)
+SubJac(b)  == [d \in 1..nv |-> VSumN([c \in 1..n |-> IF b \in Anc(c) THEN VScl(B[c].mass, JP(c, kin[c].c, Dofs[d])) ELSE Z3], n)]
 
 EvKin == [op |-> "model", n |-> n, nv |-> nv, dofs |-> Dofs, bodies |-> B, glob |-> glob, level |-> Level,
           hinge |-> [d \in 1..nv |-> IsH(Dofs[d])],
+          \* an armature-bearing tendon couples two dofs on different branches (M then has entries off the tree pattern)
+          xten |-> (glob.tarm # 0 /\ \E i, j \in 1..n : B[i].tc # 0 /\ B[j].tc # 0 /\ i \notin Anc(j) /\ j \notin Anc(i)),
           kin |-> kin,
           fdp |-> ByDof([b \in 1..n |-> IF HasJ(b) THEN fd[b].p ELSE << >>]),
           fdm |-> ByDof([b \in 1..n |-> IF HasJ(b) THEN fd[b].m ELSE << >>]),
@@ -384,8 +408,8 @@ EvKin == [op |-> "model", n |-> n, nv |-> nv, dofs |-> Dofs, bodies |-> B, glob 
           submass |-> [b \in 1..n |-> SubMass(b)], submom |-> [b \in 1..n |-> SubMom(b)],
           subjac |-> [b \in 1..n |-> SubJac(b)]]
 EvDyn == [vel |-> vel,
-          jdp |-> [b \in 1..n |-> JacDP(b, kin[b].p)], jdr |-> [b \in 1..n |-> JacDR(b)],
-          jdc |-> [b \in 1..n |-> JacDP(b, kin[b].c)],
+          jdp |-> [b \in 1..n |-> JacDP(b, kin[b].p, vel[b].vo)], jdr |-> [b \in 1..n |-> JacDR(b)],
+          jdc |-> [b \in 1..n |-> JacDP(b, kin[b].c, vel[b].vc)],
           M |-> MatByDof(mass.M), Mb |-> MatByDof(mass.Mb),
           qvel |-> ByDof(VOf), qacc |-> ByDof(AOf),
           Mv |-> ByDof(MatVecN(mass.M, VOf)),
@@ -399,19 +423,30 @@ EvPas == [spring |-> ByDof(pas.spring), damper |-> ByDof(pas.damper), gravcomp |
           potA2p |-> ByDof(en.potA2p), potA2m |-> ByDof(en.potA2m),
           potB2p |-> ByDof(en.potB2p), potB2m |-> ByDof(en.potB2m)]
 Finish ==
-  /\ stage = "fin"
   /\ ev' = IF Level = 1 THEN EvKin ELSE IF Level = 2 THEN EvKin @@ EvDyn ELSE EvKin @@ EvDyn @@ EvPas
   /\ stage' = "done"
-  /\ UNCHANGED <<B, part, glob, kin, fd, vel, mass, dyn, pas, en>>
+  /\ UNCHANGED <<B, part, glob, tree, kin, fd, vel, mass, dyn, pas, en>>
 
-Next == \/ \E par \in Parents, jt \in JTypes, ax \in Axes, pos \in Offsets, rot \in Rots, janc \in Anchors,
-              spos \in SitePos, srot \in SiteRots : PickA(par, jt, ax, pos, rot, janc, spos, srot)
-        \/ \E m \in Masses, inr \in Inertias, ipos \in IPoss, arm \in Arms, k \in Stiffs, qref \in Refs,
-              damp \in Damps, gc \in GCs, tc \in TCoefs : PickB(m, inr, ipos, arm, k, qref, damp, gc, tc)
-        \/ \E q \in Qs, v \in Vs, a \in As : PickC(q, v, a)
-        \/ \E g \in Gravs, dis \in DisSets, tk \in TenK, tr \in TenRanges, td \in TenDamps, ta \in TenArms :
-              PickG(g, dis, tk, tr, td, ta)
-        \/ Kin \/ Fd \/ Vel \/ Mass \/ Dyn \/ Passive \/ Energy \/ Finish
+\* the stage guard comes first so that TLC does not enumerate the choices of the other stages
+\* in random mode the model grows to MaxBodies bodies before it is closed (the number of bodies is drawn by PickG's guard)
+DoPickA == stage = "A" /\ \E par \in Pick(Parents), jt \in Pick(JTypes), ax \in Pick(Axes), pos \in Pick(Offsets), rot \in Pick(Rots),
+                              janc \in Pick(Anchors), spos \in Pick(SitePos), srot \in Pick(SiteRots) :
+                              PickA(par, jt, ax, pos, rot, janc, spos, srot)
+DoPickB == stage = "B" /\ \E m \in Pick(Masses), inr \in Pick(Inertias), ipos \in Pick(IPoss), arm \in Pick(Arms), k \in Pick(Stiffs),
+                              qref \in Pick(Refs), damp \in Pick(Damps), gc \in Pick(GCs), tc \in Pick(TCoefs) :
+                              PickB(m, inr, ipos, arm, k, qref, damp, gc, tc)
+DoPickC == stage = "C" /\ \E q \in Pick(Qs), v \in Pick(Vs), a \in Pick(As) : PickC(q, v, a)
+DoPickG == stage = "A" /\ \E g \in Pick(Gravs), dis \in Pick(DisSets), tk \in Pick(TenK), tr \in Pick(TenRanges),
+                              td \in Pick(TenDamps), ta \in Pick(TenArms) : PickG(g, dis, tk, tr, td, ta)
+DoKin     == stage = "kin"  /\ Kin
+DoFd      == stage = "fd"   /\ Fd
+DoVel     == stage = "vel"  /\ Vel
+DoMass    == stage = "mass" /\ Mass
+DoDyn     == stage = "dyn"  /\ Dyn
+DoPassive == stage = "pas"  /\ Passive
+DoEnergy  == stage = "en"   /\ Energy
+DoFinish  == stage = "fin"  /\ Finish
+Next == DoPickA \/ DoPickB \/ DoPickC \/ DoPickG \/ DoKin \/ DoFd \/ DoVel \/ DoMass \/ DoDyn \/ DoPassive \/ DoEnergy \/ DoFinish
 Spec == Init /\ [][Next]_vars
 
 \* ================================================================================================
@@ -509,9 +544,19 @@ FullGravcompBalances ==
 RestAtReferenceIsForceFree ==
   L3 => ((\A b \in 1..n : B[b].v = 0 /\ B[b].q = B[b].qref /\ B[b].gc = 0) /\ TenDefl(QOf) = 0
            => \A i \in 1..n : pas.totA[i] = 0 /\ pas.totB[i] = 0)
+\* ---- deliberately FALSE claims: negative controls of the model checking itself (TLC must refute them) ----
+\* "the bias force does not depend on the velocity"
+NegBiasVelocityFree == L2 => dyn.bias = RecTau(ZeroN, ZeroN)
+\* "a one-sided lattice difference is the Jacobian" (true for slides only)
+NegOneSidedDifference == Done => \A j \in DofB, b \in 1..n : VSub(fd[j].p[b].p, kin[b].p) = JP(b, kin[b].p, j)
+\* "springs push away from the reference"
+NegSpringSign == L3 => \A j \in DofB : pas.spring[j] * (B[j].q - B[j].qref) >= 0
+
 \* ---- constants of the configurations (cfg files cannot hold tuples) ----------------------------------
 AllJ == {"none", "slide", "hinge"}
 Ax3 == {1, -2, 3}
+Ax2 == {1, -2}
+MovJ == {"slide", "hinge"}
 Ax6 == {1, 2, 3, -1, -2, -3}
 One0 == {0}
 One1 == {1}
@@ -547,6 +592,10 @@ D_Mass == {1, 2}
 D_Arm == {0, 1, 3}
 D_TC == {0, 1, -1, 2}
 D_TArm == {0, 2}
+D_TArm1 == {2}
+D_TC2 == {0, 1}
+D_V1 == {2}
+Ax13 == {1, 3}
 \* passive-force sets (C29)
 P_K == {0, 2, 3}
 P_Ref == {-1, 0, 1}
@@ -556,4 +605,8 @@ P_Dis == {{}, {"spring"}, {"damper"}, {"gravity"}, {"spring", "damper"}, {"sprin
 P_TK == {0, 1, 2}
 P_TRng == {<<0, 0>>, <<-1, 1>>, <<1, 2>>}
 P_TDamp == {0, 1}
+P_K1 == {2}
+P_Ref2 == {0, 1}
+P_V1 == {-2}
+P_TRng2 == {<<0, 0>>, <<1, 2>>}
 =============================================================================
